@@ -329,6 +329,9 @@ fn oracle(prop: &str, rep: &mut Report, c: &EmitCase, em: &Emitted) {
                             if let syn::Fields::Named(nf) = &s.fields {
                                 for (fname, hf) in &st.fields {
                                     let ident = fname.to_rust_ident().0;
+                                    // a field invented for an allOf member may carry the same identifier as a property (recorded under C02): which
+                                    // of the two a doc belongs to cannot be told by identifier then
+                                    if nf.named.iter().filter(|x| x.ident.as_ref().map(|i| i.to_string()) == Some(ident.clone())).count() != 1 { rep.bump("c17_fields_with_ambiguous_identifier"); continue; }
                                     let Some(sf) = nf.named.iter().find(|x| x.ident.as_ref().map(|i| i.to_string()) == Some(ident.clone())) else { continue };
                                     let got = summary::doc_of(&sf.attrs).map(|d| strip(&d));
                                     if got != want_of(&hf.doc) { rep.oracle_fail("fieldDoc", vec![], &case, &format!("{key}.{fname}: emitted {got:?}, expected {:?}", want_of(&hf.doc))); } else { rep.bump("c17_field_docs_ok"); }
